@@ -39,6 +39,9 @@ def oracle(rng, cfg, xs):
 
 
 def run(ctx, res):
+    if getattr(ctx, "replay", None):
+        nnm.run_replay(ctx, res, None)
+        return
     cases, cr = nnm.run_corr(ctx.pid, ctx.rng, ctx.n(500, 6000), maxlen=ctx.n(12, 14))
     res.corr.append(("NonnegMean.test/estim/bet vs NNM.run_test/run_estim/run_bet", cr, nnm.case_json))
     res.evaluations += len(cases)
